@@ -7,8 +7,10 @@ reached; the harness records the numbers in the evidence file and treats an unex
 broken correspondence (the generator no longer exercises part of the code the model claims to cover).
 """
 import sys
+import ast
 import dis
 import inspect
+import textwrap
 
 TOOL = 4          # a free sys.monitoring tool id (0 debugger, 1 coverage, 2 profiler, 5 optimizer are reserved names)
 
@@ -87,7 +89,13 @@ class LineCoverage:
 
     def report(self, allow=()):
         """Returns (summary dict, list of 'name:line: source' never executed and not allowed).
-        allow: substrings of source lines that may stay unreached (e.g. 'raise ValueError', 'assert False')."""
+        allow: lines that may stay unreached.  An entry is
+          * a substring of the source line ('assert False', 'result += 360'), or
+          * 'raise <Exc>' - additionally matches, structurally, every `raise <Exc>(...)` statement of the measured
+            functions however its message is spelled (literal, f-string, module constant), or
+          * a callable(info) -> bool with info = dict(name, line, text, stmt, parents) (ast nodes; stmt may be None).
+        A `case _:` line whose body consists only of allowed statements is allowed with them (a refactoring of
+        `else: assert False` into a match statement adds such a line)."""
         summ, missing = {}, []
         for name, code in self.codes.items():
             allc = _lines_of(code)
@@ -96,15 +104,79 @@ class LineCoverage:
                 src, start = inspect.getsourcelines(code)
             except (OSError, TypeError):
                 src, start = [], first
+            stmts = _statements(src, start)
+
+            def text_of(ln):
+                return src[ln - start].strip() if 0 <= ln - start < len(src) else ''
+
+            def allowed(ln):
+                text = text_of(ln)
+                st, parents = stmts.get(ln, (None, []))
+                for a in allow:
+                    if callable(a):
+                        try:
+                            if a(dict(name=name, line=ln, text=text, stmt=st, parents=parents)):
+                                return True
+                        except Exception:
+                            pass
+                        continue
+                    if a in text:
+                        return True
+                    if a.startswith('raise ') and isinstance(st, ast.Raise) \
+                            and _exc_name(st) == a.split()[1].split('(')[0]:
+                        return True
+                    if a.startswith('assert False') and isinstance(st, ast.Assert) \
+                            and isinstance(st.test, ast.Constant) and st.test.value is False:
+                        return True
+                return False
+
             miss = sorted(allc - self.hit[name] - {first})
             real = []
             for ln in miss:
-                text = src[ln - start].strip() if 0 <= ln - start < len(src) else ''
+                text = text_of(ln)
                 if text.startswith(('def ', '@', '"""', "'''")) or not text:
                     continue
-                if any(a in text for a in allow):
+                if allowed(ln):
+                    continue
+                st, _ = stmts.get(ln, (None, []))
+                if isinstance(st, ast.match_case) and _wildcard(st) and st.body \
+                        and all(allowed(b.lineno + start - 1) for b in st.body):
                     continue
                 real.append(ln)
                 missing.append(f"{name}:{ln}: {text[:90]}")
             summ[name] = dict(executable=len(allc), executed=len(allc & self.hit[name]), unreached=real)
         return summ, missing
+
+
+def _exc_name(st):
+    e = st.exc
+    if isinstance(e, ast.Call):
+        e = e.func
+    if isinstance(e, ast.Attribute):
+        return e.attr
+    return getattr(e, 'id', None)
+
+
+def _wildcard(case):
+    p = case.pattern
+    return isinstance(p, ast.MatchAs) and p.pattern is None and p.name is None and case.guard is None
+
+
+def _statements(src, start):
+    """absolute line -> (ast statement or match_case starting on that line, list of enclosing nodes)"""
+    out = {}
+    try:
+        tree = ast.parse(textwrap.dedent(''.join(src)))
+    except (SyntaxError, ValueError):
+        return out
+    off = start - 1
+
+    def walk(node, parents):
+        for ch in ast.iter_child_nodes(node):
+            if isinstance(ch, ast.stmt):
+                out.setdefault(ch.lineno + off, (ch, parents))
+            elif isinstance(ch, ast.match_case):
+                out.setdefault(ch.pattern.lineno + off, (ch, parents))
+            walk(ch, parents + [ch])
+    walk(tree, [])
+    return out
